@@ -120,17 +120,26 @@ def make_api(r, shape):
 
 def witness_api(kind):
     """Deterministic single-method APIs, one per candidate defect (the witnesses of the _refuted lemmas)."""
-    cross = kind in ("cross_two_repeated", "cross_dotted")
+    cross = kind in ("cross_two_repeated", "cross_dotted", "reserved_in_pb2")
+    subpkg = kind == "falsy_request"
     main = apigen.File("google/example/library/v1/library.proto", "google.example.library.v1",
-                       deps=list(apigen.STD_DEPS) + (["acme/common/v1/common.proto"] if cross else []))
-    files = []
+                       deps=list(apigen.STD_DEPS) + (["acme/common/v1/common.proto"] if cross else [])
+                       + (["google/example/library/v1/shared/shared.proto"] if subpkg else []))
+    files, togen = [], []
     if cross:
         dep = apigen.File("acme/common/v1/common.proto", "acme.common.v1")
         sub = dep.message("Sub")
         sub.field("text", 1, "string")
         rq = dep.message("CommonRequest")
         rq.field("name", 1, "string").field("tags", 2, "string", repeated=True).field("nums", 3, "int64", repeated=True).field("sub", 4, sub.fqn)
+        rq.field("type", 5, "string")
         files.append(dep)
+    elif subpkg:
+        sh = apigen.File("google/example/library/v1/shared/shared.proto", "google.example.library.v1.shared")
+        rq = sh.message("SharedRequest")
+        rq.field("name", 1, "string").field("level", 2, "int32", optional=True)
+        files.append(sh)
+        togen.append(sh.proto.name)
     else:
         inner = main.message("Inner")
         inner.field("title", 1, "string").field("tags", 2, "string", repeated=True)
@@ -140,12 +149,14 @@ def witness_api(kind):
     resp.field("note", 1, "string")
     svc = main.service("Library", host="library.example.com")
     sigs = {"cross_two_repeated": ["name,tags,nums"], "cross_dotted": ["name,sub.text"], "reserved_segment": ["class.title"],
-            "control_name": ["name,retry"], "duplicate_param": ["book.title,other.title"], "empty_container_dotted": ["name,book.tags"]}[kind]
+            "control_name": ["name,retry"], "duplicate_param": ["book.title,other.title"], "empty_container_dotted": ["name,book.tags"],
+            "reserved_in_pb2": ["name,type"], "falsy_request": ["level"]}[kind]
     svc.rpc("GetBook", rq.fqn, resp.fqn, sigs=sigs)
-    return apigen.request(files + [main], to_generate=[main.proto.name], parameter="transport=grpc")
+    return apigen.request(files + [main], to_generate=togen + [main.proto.name], parameter="transport=grpc")
 
 
-WITNESSES = ["cross_two_repeated", "cross_dotted", "reserved_segment", "control_name", "duplicate_param", "empty_container_dotted"]
+WITNESSES = ["cross_two_repeated", "cross_dotted", "reserved_segment", "control_name", "duplicate_param", "empty_container_dotted",
+             "reserved_in_pb2", "falsy_request"]
 
 
 # ---------------------------------------------------------------------------------------------- oracle-side reading of a signature
@@ -207,9 +218,15 @@ def srepr(f, v):
     return str(int(v)) if v else ""
 
 
+def mhash(v):
+    """short stable name of a sub-message value (the model only compares such values for equality)"""
+    b = v.SerializeToString(deterministic=True)
+    return env.canon_hash(base64.b64encode(b).decode()) if b else ""
+
+
 def item_repr(f, v):
     if f.type == FD.TYPE_MESSAGE:
-        return "m" + base64.b64encode(v.SerializeToString(deterministic=True)).decode()
+        return "m" + mhash(v)
     return "=" + srepr(f, v)
 
 
@@ -250,7 +267,7 @@ def leaf_of(msg, path, passed=False):
     if f.type == FD.TYPE_MESSAGE:
         if not parent.HasField(f.name) and not passed:
             return None
-        return "(LM " + coq.s(base64.b64encode(v.SerializeToString(deterministic=True)).decode()) + ")"
+        return "(LM " + coq.s(mhash(v)) + ")"
     if has_presence(f):
         if not parent.HasField(f.name) and not passed:
             return None
@@ -318,6 +335,20 @@ def set_path(dst, src, path):
         setattr(dp_, f.name, v)
 
 
+def pp_falsy(idx, msg):
+    """bool(request) is False for a proto-plus message: every set field holds a false value (defaults, sub-messages of the
+    library that are themselves false); plain protobuf sub-messages and non-empty containers count as true"""
+    for f, v in msg.ListFields():
+        if f.label == FD.LABEL_REPEATED:
+            return False
+        if f.type == FD.TYPE_MESSAGE:
+            if not idx.proto_plus_pkg(f.message_type.file.package) or not pp_falsy(idx, v):
+                return False
+        elif v:
+            return False
+    return True
+
+
 def strip_others(msg, keys):
     """True when nothing but the flattened paths (and their parents) is set in msg"""
     c = type(msg)()
@@ -345,6 +376,10 @@ def subsets(r, n, quick):
         if s not in out:
             out.append(s)
     return out
+
+
+def subs_nonempty(subs):
+    return [x for x, _ in subs if x]
 
 
 def method_table(idx):
@@ -432,7 +467,18 @@ class ApiRun:
         if res is None:
             unresolved = [table[k][2].name for k in exps if exps[k] is None]
             if not unresolved:
-                ctx.violation(f"generation failed ({gen.error_kind(err)}) although every signature path resolves", dict(self.case, stderr=err[-600:]))
+                sig = None
+                for k, (fp, s, m, rq, cross) in enumerate(table):
+                    for sg in U.Index.signatures(m):
+                        for piece in sg.split(","):
+                            cur = rq
+                            for seg in piece.strip().split("."):
+                                if cur in self.idx.msgs and seg in self.reserved and not self.idx.proto_plus_pkg(self.idx.package_of(cur)):
+                                    sig = "flatten.reserved_name_in_pb2_request"
+                                nf = next((x for x in self.idx.msgs[cur][0].field if x.name == seg), None) if cur in self.idx.msgs else None
+                                cur = nf.type_name if nf is not None else None
+                ctx.violation(f"generation failed ({gen.error_kind(err)}) although every signature path resolves",
+                              dict(self.case, stderr=err[-600:]), sig if gen.error_kind(err) == "KeyError" else None)
             return
         files = gen.files_of(res)
         root = U.materialise(self.req, res, "c05_" + self.tag)
@@ -509,7 +555,10 @@ class ApiRun:
                 cls_path = vm + (("." + sub) if sub else "") + ".types:" + rq[len(fp_req.package) + 2:]
             else:
                 cls_path = U.module_of(fp_req.name) + ":" + rq[len(fp_req.package) + 2:]
-            for si, sub_ in enumerate(subsets(r, len(keys), quick)):
+            subs = [(x, False) for x in subsets(r, len(keys), quick)]
+            if self.tag.startswith("w_") or r.random() < 0.25:
+                subs += [(x, True) for x in subs_nonempty(subs)]
+            for si, (sub_, all_default) in enumerate(subs):
                 src = self.dyn.random(r, rq, fill=0.75)
                 # sometimes force vacuous values: defaults and empty containers
                 exp_msg = self.dyn.new(rq)
@@ -521,7 +570,7 @@ class ApiRun:
                         parent.ClearField(f.name)
                         for _ in range(r.randint(1, 2) if f.label == FD.LABEL_REPEATED else 1):
                             self.fill_wkt(parent, f)
-                    elif not wkt and r.random() < 0.15:
+                    elif not wkt and (all_default or r.random() < 0.15):
                         parent.ClearField(f.name)
                     set_path(exp_msg, src, key)
                 empty_dotted = [key for key in chosen if "." in key and leaf_of(exp_msg, key) is None
@@ -609,18 +658,26 @@ class ApiRun:
             # observed outcome in model terms
             mkeys = self.model_keys(k, keys)
             # the asyncio constructor call uses the parameter names as field names: compare those top-level fields too
-            top = [f.name for f in self.idx.msgs[rq][0].field]
-            extra = [q for q in dict.fromkeys(params) if cross and q in top and q not in keys and not any(x.startswith(q + ".") for x in keys)]
-            keys_x, mkeys_x = keys + extra, mkeys + extra
+            ppq = self.idx.proto_plus_pkg(self.idx.package_of(rq))
+            attr = {(f.name + "_" if (ppq and f.name in self.reserved) else f.name): f.name for f in self.idx.msgs[rq][0].field}
+            extra = [q for q in dict.fromkeys(params) if cross and q in attr and attr[q] not in keys and q not in mkeys
+                     and not any(x.startswith(attr[q] + ".") for x in keys)]
+            keys_x, mkeys_x = keys + [attr[q] for q in extra], mkeys + extra
             obs_term, got = self.observed(o, rq, keys_x, mkeys_x)
             sent[cid] = got
             pkw = coq.lst(f"({coq.s(params[i])}, {leaf_of(exp_msg, keys[i], passed=True)})" for i in sub_)
             ra = "RNone" if mode == "kwargs" else f"(RMsg {req_term(exp_msg, keys_x, mkeys_x)})"
             kwt = pkw if mode in ("kwargs", "mixed") else "[]"
-            if obs_term is not None:
+            if obs_term in ("ORaiseType",) and variant == "Async" and cross and extra:
+                # the asyncio constructor hit a top-level field of another type: inside the reported defect region, types of
+                # fields that are not flattened are not part of the model
+                ctx.features["async-ctor-defect-region-unmodelled-outcome"] += 1
+            elif obs_term is not None:
                 self.checks.append((f"{self.tag}.{m.name} {variant} {mode} subset={case['subset']}: model outcome = observed",
                                     f"match {self.blk_name(k)} {variant} with Some b => outcome_eqb_on {coq.slist(mkeys_x)} {coq.slist(all_prefixes(mkeys_x))} "
                                     f"(exec b {ra} {kwt}) {obs_term} | None => false end"))
+            elif variant == "Async" and cross and any("." in kk for kk in keys):
+                ctx.features["async-ctor-defect-region-unmodelled-outcome"] += 1     # e.g. the value does not fit the field that is hit
             else:
                 ctx.oblige(f"T2 {self.tag}.{m.name} {variant} {mode}: outcome is one the model knows", False, json.dumps(o.get("error"))[:300], "T2")
             # ---- the property's own sentences
@@ -642,6 +699,9 @@ class ApiRun:
                 sigk = known
                 if mode == "kwargs" and empty_dotted and self.only_parent_presence_differs(got, exp_msg, keys):
                     sigk = "flatten.empty_container_dotted_key"
+                if mode == "request" and cross and self.idx.proto_plus_pkg(self.idx.package_of(rq)) and pp_falsy(self.idx, exp_msg) \
+                        and got == type(exp_msg)():
+                    sigk = "flatten.cross_pkg_proto_plus_falsy_request"
                 ctx.violation(f"{m.name} ({variant}) {mode} call sent a request different from the message with those fields set "
                               f"(subset {case['subset']})", dict(case, sent_b64=U.b64(got)), sigk)
         # signature clause + sync/async agreement
